@@ -1,5 +1,5 @@
 (** The receive-accounting invariant of Model/FlowRecv.v and its preservation by every op (C06). *)
-From QV Require Import Lib.Tac Lib.Corr Model.FlowRecv Proofs.FlowRecvProofs.
+From QV Require Import Lib.Tac Lib.Corr Model.FlowRecv Proofs.FlowRecvProofs Proofs.AsmInv.
 Open Scope Z_scope.
 
 Definition slot_end (t : rslot) : Z := match t with SOpen r => eff_end r | _ => 0 end.
@@ -7,7 +7,7 @@ Fixpoint sum_ends (m : list (Z * rslot)) : Z :=
   match m with [] => 0 | (_, t) :: r => slot_end t + sum_ends r end.
 
 Definition recv_ok (r : recv) : Prop :=
-  0 <= r_end r /\
+  0 <= r_end r /\ asm_ok (r_asm r) (r_end r) /\
   match r_state r with
   | RRecv None => r_end r <= r_sent_msd r
   | RRecv (Some f) => r_end r <= f /\ f <= r_sent_msd r
@@ -68,7 +68,10 @@ Lemma amem_false k (m : list (Z * rslot)) : amem k m = false -> alookup k m = No
 Proof. unfold amem. destruct (alookup k m); [discriminate|reflexivity]. Qed.
 
 Lemma recv_new_ok w : 0 <= w -> recv_ok (recv_new w).
-Proof. intro H. unfold recv_ok, recv_new; cbn. lia. Qed.
+Proof.
+  intro H. unfold recv_ok, recv_new; cbn [r_end r_asm r_state r_sent_msd].
+  split; [lia|]. split; [apply asm_new_ok; lia|lia].
+Qed.
 
 Lemma view_ok s t : 0 <= swin s -> slot_ok t -> recv_ok (rview s t).
 Proof. intros Hw H. destruct t; cbn [rview]; try (apply recv_new_ok; assumption). exact H. Qed.
@@ -243,12 +246,12 @@ Qed.
 
 (** ** Facts about [ingest] and [recv_reset] on success *)
 Lemma ingest_ok r off len fin received max_data r' nb closed :
-  is_receiving r = true -> recv_ok r ->
+  is_receiving r = true -> recv_ok r -> 0 <= off ->
   ingest true r off len fin received max_data = Ok (r', nb, closed) ->
   recv_ok r' /\ eff_end r' = eff_end r + nb /\ 0 <= nb /\ received + nb <= max_data /\
   is_receiving r' = true /\ (closed = true -> r_stopped r' = true).
 Proof.
-  intros R [K0 K] H. unfold ingest in H.
+  intros R (K0 & KA & K) Hoff H. unfold ingest in H.
   destruct (2 ^ 62 <=? off + len); [discriminate|].
   destruct (match final_offset r with
             | Some f => (f <? off + len) || (fin && negb (off + len =? f))
@@ -258,19 +261,29 @@ Proof.
             || (max_data <? received + Z.max 0 (off + len - r_end r))) eqn:C; [discriminate|].
   apply orb_false_iff in C as [C1 C2].
   inversion H; subst; clear H.
+  (* the assembler part *)
+  assert (KA' : asm_ok (if r_stopped r then r_asm r else asm_insert (r_asm r) off len)
+                       (Z.max (r_end r) (off + len))).
+  { pose proof (asm_ok_mono _ _ (Z.max (r_end r) (off + len)) KA ltac:(lia)) as KA1.
+    destruct (r_stopped r); [exact KA1|]. apply asm_insert_ok; [exact KA1|exact Hoff|lia]. }
   unfold is_receiving in R. unfold final_offset in F. unfold recv_ok, eff_end, is_receiving.
-  destruct (r_state r) as [[f|]|f c] eqn:S; try discriminate; cbn [r_state r_end r_sent_msd r_stopped].
+  cbn [r_state r_end r_sent_msd r_stopped r_asm].
+  destruct (r_state r) as [[f|]|f c] eqn:S; try discriminate.
   - apply orb_false_iff in F as [F1 F2].
-    destruct (fin && negb (r_stopped r)) eqn:FS; cbn [r_state].
+    destruct (fin && negb (r_stopped r)) eqn:FS.
     + apply andb_true_iff in FS as [FS1 FS2]. subst fin. cbn in F2. apply negb_false_iff in F2.
+      split; [split; [lia|split; [exact KA'|lia]]|].
       repeat split; try lia. intro Hc. cbn in Hc. rewrite Hc in FS2. discriminate.
-    + try rewrite S. repeat split; try lia.
+    + split; [split; [lia|split; [exact KA'|lia]]|].
+      repeat split; try lia.
       intro Hc. apply andb_true_iff in Hc as [_ Hc]. exact Hc.
   - cbn in F.
-    destruct (fin && negb (r_stopped r)) eqn:FS; cbn [r_state].
+    destruct (fin && negb (r_stopped r)) eqn:FS.
     + apply andb_true_iff in FS as [FS1 FS2]. subst fin. cbn in F.
+      split; [split; [lia|split; [exact KA'|lia]]|].
       repeat split; try lia. intro Hc. cbn in Hc. rewrite Hc in FS2. discriminate.
-    + try rewrite S. repeat split; try lia.
+    + split; [split; [lia|split; [exact KA'|lia]]|].
+      repeat split; try lia.
       intro Hc. apply andb_true_iff in Hc as [_ Hc]. exact Hc.
 Qed.
 
@@ -280,7 +293,8 @@ Lemma reset_ok r code final received max_data r' :
   eff_end r = r_end r /\ received + (final - r_end r) <= max_data /\
   r_stopped r' = r_stopped r /\ bytes_read r' = bytes_read r.
 Proof.
-  intros [K0 K] H. unfold recv_reset in H.
+  intros (K0 & KA & K) H. unfold recv_reset in H.
+  pose proof (asm_clear_ok _ _ K0 KA) as KC.
   destruct (match final_offset r with Some f => negb (f =? final) | None => final <? r_end r end)
     eqn:F; [discriminate|].
   unfold credit_consumed_by in H.
@@ -291,8 +305,10 @@ Proof.
   destruct (r_state r) as [[f|]|f c] eqn:S; try discriminate;
     inversion H; subst; clear H; cbn [r_state r_end r_sent_msd r_stopped r_asm].
   - apply negb_false_iff in F. assert (f = final) by lia. subst f.
+    split; [split; [lia|split; [exact KC|lia]]|].
     repeat split; try lia. unfold asm_clear. destruct (a_mode (r_asm r)); reflexivity.
-  - repeat split; try lia. unfold asm_clear. destruct (a_mode (r_asm r)); reflexivity.
+  - split; [split; [lia|split; [exact KC|lia]]|].
+    repeat split; try lia. unfold asm_clear. destruct (a_mode (r_asm r)); reflexivity.
 Qed.
 
 (** ** Preservation by every op *)
@@ -309,9 +325,10 @@ Proof. intro I. unfold see. inv_eq. Qed.
 Lemma note_tx_Inv r s : Inv s -> Inv (note_tx r s).
 Proof. intro I. unfold note_tx. destruct r as [c|[|]]; try assumption. inv_eq. Qed.
 
-Lemma received_Inv id off len fin s : Inv s -> Inv (fst (received true id off len fin s)).
+Lemma received_Inv id off len fin s :
+  Inv s -> 0 <= off -> Inv (fst (received true id off len fin s)).
 Proof.
-  intro I. unfold received.
+  intros I Hoff. unfold received.
   destruct (validate_receive_id id s); [exact I|].
   destruct (alookup id (recvm s)) as [slot|] eqn:L; [|exact I].
   pose proof (Inv_open id slot s I L) as I1.
@@ -321,7 +338,7 @@ Proof.
   destruct (negb (is_receiving r)) eqn:R; [exact I1|]. apply negb_false_iff in R.
   destruct (ingest true r off len fin (data_recvd s) (local_max s)) as [c|[[r' nb] closed]] eqn:G;
     [exact I1|].
-  destruct (ingest_ok _ _ _ _ _ _ _ _ _ R Kr G) as (K' & E' & Hnb & Hb & R' & Hc).
+  destruct (ingest_ok _ _ _ _ _ _ _ _ _ R Kr Hoff G) as (K' & E' & Hnb & Hb & R' & Hc).
   assert (L1 : alookup id (recvm s1) = Some (SOpen r)) by (subst s1; prj; apply lookup_aset_same).
   assert (D1 : data_recvd s1 = data_recvd s) by (subst s1; reflexivity).
   assert (M1 : local_max s1 = local_max s) by (subst s1; reflexivity).
@@ -344,12 +361,9 @@ Proof.
 Qed.
 
 Lemma received_reset_Inv id code final s :
-  Inv s ->
-  (forall slot, alookup id (recvm s) = Some slot ->
-     bytes_read (rview s slot) <= r_end (rview s slot)) ->
-  Inv (fst (received_reset true id code final s)).
+  Inv s -> Inv (fst (received_reset true id code final s)).
 Proof.
-  intros I HB. unfold received_reset.
+  intros I. unfold received_reset.
   destruct (validate_receive_id id s); [exact I|].
   destruct (alookup id (recvm s)) as [slot|] eqn:L; [|exact I].
   pose proof (Inv_open id slot s I L) as I1.
@@ -411,7 +425,8 @@ Proof.
     assert (final = r_end r).
     { subst credited. cbn [andb] in Cr. destruct (r_stopped r'); [lia|].
       (* not stopped: bytes_read = final, and bytes_read <= end <= final *)
-      specialize (HB slot eq_refl). fold r in HB. lia. }
+      destruct Kr as (Kr0 & KrA & _). pose proof (asm_ok_read _ _ Kr0 KrA) as HB.
+      unfold bytes_read in *. lia. }
     pose proof (i_recvd _ I). pose proof (i_lmax _ I).
     cbn [fst]. constructor; try lia; try assumption.
 Qed.
@@ -427,7 +442,9 @@ Proof.
   destruct (r_stopped r); [exact I1|].
   set (r' := mkRecv (r_state r) (asm_clear (r_asm r)) (r_sent_msd r) (r_end r) true).
   assert (L1 : alookup id (recvm s1) = Some (SOpen r)) by (subst s1; prj; apply lookup_aset_same).
-  assert (K' : recv_ok r') by exact Kr.
+  assert (K' : recv_ok r').
+  { destruct Kr as (Kr0 & KrA & Kr1). subst r'. unfold recv_ok. cbn [r_end r_asm r_state r_sent_msd].
+    split; [exact Kr0|]. split; [apply asm_clear_ok; assumption|exact Kr1]. }
   assert (E' : eff_end r' = eff_end r) by reflexivity.
   pose proof (Inv_update id (SOpen r) (SOpen r') s1 I1 L1 K') as I2.
   cbn [slot_end] in I2. rewrite E' in I2. replace (eff_end r - eff_end r) with 0 in I2 by lia.
@@ -518,3 +535,217 @@ Fixpoint sum_consumed_m (m : list (Z * rslot)) : Z :=
   match m with [] => 0 | (_, t) :: r => slot_consumed t + sum_consumed_m r end.
 Fixpoint sum_unread (m : list (Z * rslot)) : Z :=
   match m with [] => 0 | (_, t) :: r => (slot_end t - slot_consumed t) + sum_unread r end.
+
+(** ** Reads and control-frame transmission *)
+Lemma Inv_update0 id t t' s :
+  Inv s -> alookup id (recvm s) = Some t -> slot_ok t' -> slot_end t' = slot_end t ->
+  Inv (set_recvm (aset id t' (recvm s)) s).
+Proof.
+  intros [I1 I2 I3 I4 I5] L Ht He. constructor; prj; try assumption.
+  - rewrite (sum_aset_some _ _ _ _ L). lia.
+  - apply ok_aset; assumption.
+Qed.
+
+Lemma queue_dir_recvm d s : recvm (fst (queue_dir d s)) = recvm s.
+Proof.
+  unfold queue_dir.
+  destruct (pget d (max_remote s) - pget d (sent_max_remote s) <? 0);
+    destruct (pget d (max_conc s) / 8 <? _); reflexivity.
+Qed.
+Lemma queue_recvm s : recvm (fst (queue_max_stream_id s)) = recvm s.
+Proof.
+  unfold queue_max_stream_id.
+  pose proof (queue_dir_recvm 0 s) as H0. destruct (queue_dir 0 s) as [s1 q0]. cbn [fst] in H0.
+  pose proof (queue_dir_recvm 1 s1) as H1. destruct (queue_dir 1 s1) as [s2 q1]. cbn [fst] in *.
+  congruence.
+Qed.
+
+Lemma read_op_Inv id ordered budget s : Inv s -> Inv (fst (read_op true id ordered budget s)).
+Proof.
+  intro I. unfold read_op.
+  destruct (alookup id (recvm s)) as [slot|] eqn:L; [|exact I].
+  pose proof (Inv_open id slot s I L) as I1.
+  set (r := rview s slot) in *. set (s1 := set_recvm (aset id (SOpen r) (recvm s)) s) in *.
+  assert (Kr : recv_ok r).
+  { subst r. apply view_ok; [apply I|]. eapply ok_lookup; [apply I|exact L]. }
+  destruct (r_stopped r) eqn:St; [exact I1|].
+  destruct (asm_ensure (r_asm r) ordered) as [a1|] eqn:En; [|exact I1].
+  destruct Kr as (K0 & KA & K1).
+  destruct (asm_ensure_ok _ _ _ _ K0 KA En) as [KA1 _].
+  destruct (asm_read a1 budget) as [[a2 total] none] eqn:Rd.
+  destruct (asm_read_ok _ _ _ _ _ _ K0 KA1 Rd) as (KA2 & Ht & _).
+  match goal with |- context [let '(term, code) := ?e in _] => destruct e as [term code] end.
+  set (r2 := mkRecv (r_state r) a2 (r_sent_msd r) (r_end r) false).
+  assert (K2 : recv_ok r2) by (subst r2; unfold recv_ok; cbn [r_end r_asm r_state r_sent_msd]; auto).
+  assert (E2 : eff_end r2 = eff_end r) by reflexivity.
+  assert (L1 : alookup id (recvm s1) = Some (SOpen r)) by (subst s1; prj; apply lookup_aset_same).
+  set (freed := (term =? 2) || (term =? 3)).
+  destruct freed eqn:Fr.
+  - (* the stream ended: the entry leaves the map *)
+    pose proof (Inv_close id (SOpen r) s1 I1 L1) as I3. cbn [slot_end] in I3. rewrite <- E2 in I3.
+    set (s3 := stream_recv_freed id (eff_end r2) (set_recvm (aremove id (recvm s1)) s1)) in *.
+    set (s3' := set_panic_if _ s3).
+    assert (I3' : Inv s3').
+    { subst s3'. match goal with |- context [set_panic_if ?b _] => destruct b end; [inv_eq|exact I3]. }
+    pose proof (queue_same s3') as Q4. destruct (queue_max_stream_id s3') as [s4 q]. cbn [fst] in Q4.
+    pose proof (Inv_same _ _ I3' Q4) as I4.
+    pose proof (arc_Inv total s4 I4) as I6. destruct (add_read_credits total s4) as [s6 t2].
+    cbn [fst] in *. inv_eq.
+  - set (s3' := set_panic_if _ s1).
+    assert (I3' : Inv s3').
+    { subst s3'. match goal with |- context [set_panic_if ?b _] => destruct b end; [inv_eq|exact I1]. }
+    assert (L3 : alookup id (recvm s3') = Some (SOpen r)).
+    { subst s3'. match goal with |- context [set_panic_if ?b _] => destruct b end; exact L1. }
+    pose proof (queue_same s3') as Q4. pose proof (queue_recvm s3') as R4.
+    destruct (queue_max_stream_id s3') as [s4 q]. cbn [fst] in Q4, R4.
+    pose proof (Inv_same _ _ I3' Q4) as I4.
+    assert (L4 : alookup id (recvm s4) = Some (SOpen r)) by (rewrite R4; exact L3).
+    set (p5 := match max_stream_data r2 (swin s4) with Some (_, tr) => _ | None => _ end).
+    assert (I5 : Inv (fst p5)).
+    { subst p5. destruct (max_stream_data r2 (swin s4)) as [[m tr]|]; cbn [fst]; [|inv_eq].
+      destruct tr.
+      - assert (I4' : Inv (set_p_msd (zadd id (p_msd s4)) s4)) by inv_eq.
+        apply (Inv_update0 id (SOpen r) (SOpen r2) _ I4'); [prj; exact L4|exact K2|reflexivity].
+      - apply (Inv_update0 id (SOpen r) (SOpen r2) _ I4 L4 K2). reflexivity. }
+    destruct p5 as [s5 t1]. cbn [fst] in I5.
+    pose proof (arc_Inv total s5 I5) as I6. destruct (add_read_credits total s5) as [s6 t2].
+    cbn [fst] in *. inv_eq.
+Qed.
+
+Lemma emit_msd_Inv ids s : Inv s -> Inv (fst (emit_msd ids s)).
+Proof.
+  revert s. induction ids as [|id rest IH]; intros s I; cbn [emit_msd]; [exact I|].
+  destruct (alookup id (recvm s)) as [[| |r]|] eqn:L; try (apply IH; exact I).
+  destruct (can_send_fc r) eqn:C; [|apply IH; exact I].
+  destruct (max_stream_data r (swin s)) as [[m tr]|]; [|apply IH; inv_eq].
+  set (r' := mkRecv (r_state r) (r_asm r) (Z.max m (r_sent_msd r)) (r_end r) (r_stopped r)).
+  assert (Kr : recv_ok r) by (eapply (ok_lookup id (SOpen r)); [apply I|exact L]).
+  assert (K' : recv_ok r').
+  { destruct Kr as (K0 & KA & K1). subst r'. unfold recv_ok. cbn [r_end r_asm r_state r_sent_msd].
+    split; [exact K0|]. split; [exact KA|]. destruct (r_state r) as [[f|]|f c]; lia. }
+  match goal with |- context [emit_msd rest ?x] => assert (Ix : Inv x) end.
+  { match goal with |- context [set_panic_if ?b _] => destruct b end.
+    - assert (I0 : Inv (set_panic true s)) by inv_eq.
+      apply (Inv_update0 id (SOpen r) (SOpen r') _ I0); [prj; exact L|exact K'|reflexivity].
+    - apply (Inv_update0 id (SOpen r) (SOpen r') _ I L K'). reflexivity. }
+  match goal with |- context [emit_msd rest ?x] =>
+    pose proof (IH x Ix) as H; destruct (emit_msd rest x) as [s' fs] end.
+  exact H.
+Qed.
+
+Lemma control_op_Inv a b c s : Inv s -> Inv (fst (fst (control_op a b c s))).
+Proof.
+  intro I. unfold control_op.
+  set (s1 := if a then _ else s). assert (I1 : Inv s1) by (subst s1; destruct a; [inv_eq|exact I]).
+  set (s2 := if b then _ else s1). assert (I2 : Inv s2) by (subst s2; destruct b; [inv_eq|exact I1]).
+  set (s3 := if c then _ else s2). assert (I3 : Inv s3) by (subst s3; destruct c; [inv_eq|exact I2]).
+  set (s4 := set_p_stop [] _). assert (I4 : Inv s4) by (subst s4; inv_eq).
+  set (p5 := if p_max_data s4 then _ else (s4, [])).
+  assert (I5 : Inv (fst p5)).
+  { subst p5. destruct (p_max_data s4); cbn [fst]; [inv_eq|exact I4]. }
+  destruct p5 as [s5 fmd]. cbn [fst] in I5.
+  pose proof (emit_msd_Inv (p_msd s5) s5 I5) as I6. destruct (emit_msd (p_msd s5) s5) as [s6 fmsd].
+  cbn [fst] in I6.
+  set (s7 := set_p_msd [] s6). assert (I7 : Inv s7) by (subst s7; inv_eq).
+  assert (EM : forall d x, Inv x -> Inv (fst (emit_max_streams d x))).
+  { intros d x Ix. unfold emit_max_streams. destruct (pget d (p_msid x)); cbn [fst]; [inv_eq|exact Ix]. }
+  pose proof (EM 0 s7 I7) as I8. destruct (emit_max_streams 0 s7) as [s8 f0]. cbn [fst] in I8.
+  pose proof (EM 1 s8 I8) as I9. destruct (emit_max_streams 1 s8) as [s9 f1]. cbn [fst] in *.
+  exact I9.
+Qed.
+
+(** ** All op sequences *)
+Definition op_wf (op : list Z) : Prop :=
+  forall id off len fin, op = [1; id; off; len; fin] -> 0 <= off.
+
+Lemma see_match_Inv (o : list Z) s2 :
+  Inv s2 -> Inv (match o with [0; id] => see id s2 | _ => s2 end).
+Proof.
+  intro I2. destruct o as [|o1 [|o2 [|o3 r]]]; try destruct o1; cbv iota; try exact I2;
+    apply see_Inv; exact I2.
+Qed.
+
+Lemma step_core_Inv s op s' o id l :
+  Inv s -> op_wf op -> FlowRecv.step_core true s op = Some (s', o, id, l) -> Inv s'.
+Proof.
+  intros I W H. unfold FlowRecv.step_core in H.
+  destruct op as [|c a]; [discriminate|].
+  destruct (c =? 1) eqn:C1.
+  { destruct a as [|x1 [|x2 [|x3 [|x4 [|]]]]]; try discriminate.
+    assert (c = 1) by lia. subst c. specialize (W x1 x2 x3 x4 eq_refl).
+    pose proof (received_Inv x1 x2 x3 (negb (x4 =? 0)) (see x1 s) (see_Inv _ _ I) W) as I2.
+    destruct (received true x1 x2 x3 (negb (x4 =? 0)) (see x1 s)) as [s2 r]. cbn [fst] in I2.
+    inversion H; subst. apply note_tx_Inv. exact I2. }
+  destruct (c =? 2).
+  { destruct a as [|x1 [|x2 [|x3 [|]]]]; try discriminate.
+    pose proof (received_reset_Inv x1 x2 x3 (see x1 s) (see_Inv _ _ I)) as I2.
+    destruct (received_reset true x1 x2 x3 (see x1 s)) as [s2 r]. cbn [fst] in I2.
+    inversion H; subst. apply note_tx_Inv. exact I2. }
+  destruct (c =? 3).
+  { destruct a as [|x1 [|x2 [|x3 [|]]]]; try discriminate.
+    pose proof (read_op_Inv x1 (negb (x2 =? 0)) x3 (see x1 s) (see_Inv _ _ I)) as I2.
+    destruct (read_op true x1 (negb (x2 =? 0)) x3 (see x1 s)) as [s2 r]. cbn [fst] in I2.
+    inversion H; subst. exact I2. }
+  destruct (c =? 4).
+  { destruct a as [|x1 [|x2 [|]]]; try discriminate.
+    pose proof (stop_op_Inv x1 x2 (see x1 s) (see_Inv _ _ I)) as I2.
+    destruct (stop_op true x1 x2 (see x1 s)) as [s2 r]. cbn [fst] in I2.
+    inversion H; subst. exact I2. }
+  destruct (c =? 5).
+  { destruct a as [|x1 [|]]; try discriminate.
+    pose proof (rreset_op_Inv x1 (see x1 s) (see_Inv _ _ I)) as I2.
+    destruct (rreset_op x1 (see x1 s)) as [s2 r]. cbn [fst] in I2.
+    inversion H; subst. exact I2. }
+  destruct (c =? 6).
+  { destruct a as [|x1 [|]]; try discriminate.
+    pose proof (set_window_op_Inv x1 s I) as I2. destruct (set_window_op x1 s) as [s2 r].
+    cbn [fst] in I2. inversion H; subst. exact I2. }
+  destruct (c =? 7).
+  { destruct a as [|x1 [|x2 [|x3 [|]]]]; try discriminate.
+    pose proof (control_op_Inv (negb (x1 =? 0)) (negb (x2 =? 0)) (negb (x3 =? 0)) s I) as I2.
+    destruct (control_op _ _ _ s) as [[s2 r] l2]. cbn [fst] in I2.
+    inversion H; subst. exact I2. }
+  destruct (c =? 8).
+  { destruct a as [|x1 [|]]; try discriminate.
+    pose proof (open_op_Inv (if x1 =? 0 then 0 else 1) s I) as I2.
+    destruct (open_op (if x1 =? 0 then 0 else 1) s) as [s2 r]. cbn [fst] in I2.
+    inversion H; subst. apply see_match_Inv. exact I2. }
+  destruct (c =? 9).
+  { destruct a as [|x1 [|]]; try discriminate.
+    pose proof (accept_op_Inv (if x1 =? 0 then 0 else 1) s I) as I2.
+    destruct (accept_op (if x1 =? 0 then 0 else 1) s) as [s2 r]. cbn [fst] in I2.
+    inversion H; subst. apply see_match_Inv. exact I2. }
+  destruct (c =? 12).
+  { destruct a as [|x1 [|x2 [|]]]; try discriminate.
+    pose proof (sreset_op_Inv x1 x2 s I) as I2. destruct (sreset_op x1 x2 s) as [s2 r].
+    cbn [fst] in I2. inversion H; subst. exact I2. }
+  destruct (c =? 17).
+  { destruct a as [|x1 [|]]; try discriminate.
+    pose proof (reset_acked_op_Inv x1 s I) as I2. destruct (reset_acked_op x1 s) as [s2 r].
+    cbn [fst] in I2. inversion H; subst. exact I2. }
+  discriminate.
+Qed.
+
+Lemma step_Inv s op : Inv s -> op_wf op -> Inv (fst (FlowRecv.step true s op)).
+Proof.
+  intros I W. unfold FlowRecv.step.
+  destruct (FlowRecv.step_core true s op) as [[[[s' o] id] l]|] eqn:H; [|exact I].
+  cbn [fst]. eapply step_core_Inv; eassumption.
+Qed.
+
+Lemma run_from_Inv i s : Inv s -> Forall op_wf i -> Inv (fst (run_from (FlowRecv.step true) s i)).
+Proof.
+  revert s. induction i as [|op r IH]; intros s I W; cbn [run_from fst]; [exact I|].
+  inversion W; subst.
+  pose proof (step_Inv s op I H1) as I1. destruct (FlowRecv.step true s op) as [s1 o]. cbn [fst] in I1.
+  pose proof (IH s1 I1 H2) as I2. destruct (run_from (FlowRecv.step true) s1 r) as [s2 os]. exact I2.
+Qed.
+
+(** [bytes_read <= end] for every open stream follows from the invariant. *)
+Lemma Inv_reads_bounded s : Inv s ->
+  Forall (fun p => match snd p with SOpen r => 0 <= bytes_read r <= r_end r | _ => True end) (recvm s).
+Proof.
+  intros [_ _ _ I4 _]. unfold slots_ok in I4. eapply Forall_impl; [|exact I4].
+  intros [k t]. cbn [snd]. destruct t as [| |r]; auto. cbn [slot_ok].
+  intros (K0 & KA & _). apply (asm_ok_read _ _ K0 KA).
+Qed.
